@@ -11,6 +11,9 @@ operationId, a deprecated one, links by operationId and operationRef, a paramete
   * ``engine``        Hypothesis-sampled filter sets x phase subsets x workers: a real engine run against the loopback
                       API; no request may hit a documented operation that is not selected, every selected operation
                       gets a scenario in every executed unit phase, stateful transitions stay inside the selection.
+  * ``pytest``        Hypothesis-sampled filter sets x route (``schema.parametrize()``; ``from_fixture(...)`` with the
+                      filters on the lazy schema, inside the fixture, or split between both), executed by a real pytest
+                      subprocess: the set of operations the test body ran for must equal the selection.
 Oracle: vfw.oracle.selection (independent reading of the documented filter semantics, on the plain document).
 """
 from __future__ import annotations
@@ -362,16 +365,100 @@ def check_engine(ctx: Ctx, inp) -> None:
             ctx.classes["stateful-with-links"] += 1
 
 
+# ---- pytest level --------------------------------------------------------------------------------------------
+
+ROUTES = ("direct", "lazy", "lazy_fixture", "lazy_split")
+
+
+@st.composite
+def pytest_case(draw):
+    tests = []
+    for _ in range(draw(st.integers(6, 10))):
+        n_inc = draw(st.integers(0, 2))
+        n_exc = draw(st.integers(0, 2))
+        idx = draw(st.lists(st.integers(0, len(ATOMS) - 1), min_size=n_inc + n_exc, max_size=n_inc + n_exc, unique=True))
+        steps = [["include", i] for i in idx[:n_inc]] + [["exclude", i] for i in idx[n_inc:]]
+        steps = [list(s) for s in draw(st.permutations(steps))]
+        tests.append({"steps": steps, "route": draw(st.sampled_from(ROUTES))})
+    return {"tests": tests}
+
+
+def check_pytest(ctx: Ctx, inp) -> None:
+    """One real pytest subprocess per input; every entry is a parametrized test whose executed operations are logged."""
+    import json
+    import os
+    import subprocess
+    import sys
+    import tempfile
+
+    import schemathesis
+    from schemathesis.core.errors import IncorrectUsage
+
+    from vfw.core import ROOT, HarnessError
+
+    tests = []
+    for entry in inp["tests"]:
+        try:  # filter sets the API itself rejects (duplicates) cannot be written down in a test module
+            schema = schemathesis.openapi.from_dict(copy.deepcopy(DOC))
+            for mode, idx in entry["steps"]:
+                schema = apply_filter(schema, mode, ATOMS[idx])
+        except IncorrectUsage:
+            ctx.case(classes=["rejected-by-api"])
+            continue
+        tests.append(entry)
+    if not tests:
+        return
+    workdir = tempfile.mkdtemp(prefix="vfw-c07-", dir="/var/tmp")
+    try:
+        spec, log = os.path.join(workdir, "spec.json"), os.path.join(workdir, "log.jsonl")
+        with open(spec, "w") as fd:
+            json.dump({"tests": tests}, fd)
+        open(log, "w").close()
+        module = os.path.join(workdir, "test_generated.py")
+        with open(os.path.join(ROOT, "vfw", "harness", "pytest_c07_module.py")) as src, open(module, "w") as dst:
+            dst.write(src.read())
+        env = dict(os.environ, VFW_C07_SPEC=spec, VFW_C07_LOG=log)
+        done = subprocess.run([sys.executable, "-m", "pytest", module, "-q", "-p", "no:cacheprovider", "--no-header", "--tb=short", "--continue-on-collection-errors", "--rootdir", workdir, "-o", "addopts="], capture_output=True, text=True, timeout=300, cwd=workdir, env=env)
+        out = done.stdout + done.stderr
+        executed: dict = {}
+        for line in open(log):
+            i, lbl = json.loads(line)
+            executed.setdefault(i, set()).add(lbl)
+        if -1 not in executed:  # the sentinel test at the end of the module did not run: the module itself is broken
+            raise HarnessError(f"generated pytest module did not run: {out[-1500:]}")
+    finally:
+        import shutil
+
+        shutil.rmtree(workdir, ignore_errors=True)
+    for i, entry in enumerate(tests):
+        fs = {"include": [], "exclude": []}
+        for mode, idx in entry["steps"]:
+            fs[mode].append(ATOMS[idx])
+        labels, _ = expected_for(fs)
+        got = executed.get(i, set())
+        route = entry["route"]
+        nontrivial = 0 < len(labels) < len(OPS)
+        ctx.case(nontrivial=[entry] if nontrivial else None, classes=[f"route={route}", f"selected={len(labels)}", f"steps={len(entry['steps'])}"], sample={"filters": fs, "route": route, "expected": sorted(labels), "executed": sorted(got)})
+        has_expr = any(a["kind"] == "expr" for f in fs["include"] + fs["exclude"] for a in f)
+        suffix = ":expression-filter" if has_expr else ""
+        where = "fixture-filters" if route in ("lazy_fixture", "lazy_split") else route
+        if got - labels:
+            ctx.disagree(f"pytest:{where}:unselected-operation-tested{suffix}", f"route {route}: test body ran for {sorted(got - labels)}; selected: {sorted(labels)} for {fs}", input=entry, pytest_output=out[-800:])
+        if labels - got:
+            ctx.disagree(f"pytest:{where}:selected-operation-not-tested{suffix}", f"route {route}: test body never ran for {sorted(labels - got)} for {fs}", input=entry, pytest_output=out[-800:])
+
+
 SUBS = [
     Sub("filters_enum", fn=check_filterset, enumerate=enum_filtersets, quick=(16, 0), thorough=(16, 0), exhaustive=True, timeout_quick=600, timeout_thorough=3400),
     Sub("engine", collect=True, fn=check_engine, strategy=engine_case, quick=(8, 6), thorough=(16, 150), shrink_quick=False, timeout_quick=600, timeout_thorough=3400),
+    Sub("pytest", collect=True, fn=check_pytest, strategy=pytest_case, quick=(8, 3), thorough=(16, 60), shrink_quick=False, timeout_quick=600, timeout_thorough=3400),
 ]
-FLOOR = {"filters_enum": 1000, "engine": 20}
+FLOOR = {"filters_enum": 1000, "engine": 20, "pytest": 40}
 BOUNDS = {"filters_enum": "26 atoms; quick: all sets with <=1 include and <=1 exclude (both orders sampled), all 2+0 and 0+2; thorough adds all 2+1, 1+2 and a quarter of 2+2 sets; each applied step by step through schema.include/exclude with every intermediate schema re-checked, plus the FilterArguments.into() route where expressible"}
 
 MANIFEST = {
     "category": "exploration",
-    "technique": "bounded exhaustive enumeration of filter sets against a reference selection model (in-memory observations) + Hypothesis-sampled engine runs against a recording loopback API",
-    "text": "All filter sets up to the stated bound over 26 atoms of every documented kind are applied through the public include/exclude API (re-checking every intermediate schema afterwards) and through the CLI's FilterArguments; offered operations, statistic 'selected / total' counts for operations and links, and state-machine transitions are compared with an independent selection model evaluated on the plain document. Sampled filter sets are additionally run through the real engine (all phases, 1-2 workers) against a loopback API: no request may reach a documented but unselected operation, every selected operation has a scenario in every unit phase, stateful cases stay inside the selection.",
-    "note": "The document family is fixed; pytest parametrisation / lazy fixtures are not exercised; engine observations are sampled.",
+    "technique": "bounded exhaustive enumeration of filter sets against a reference selection model (in-memory observations) + Hypothesis-sampled engine runs against a recording loopback API + Hypothesis-sampled filter sets executed through real pytest parametrisation / lazy fixtures",
+    "text": "All filter sets up to the stated bound over 26 atoms of every documented kind are applied through the public include/exclude API (re-checking every intermediate schema afterwards) and through the CLI's FilterArguments; offered operations, statistic 'selected / total' counts for operations and links, and state-machine transitions are compared with an independent selection model evaluated on the plain document. Sampled filter sets are additionally run through the real engine (all phases, 1-2 workers) against a loopback API: no request may reach a documented but unselected operation, every selected operation has a scenario in every unit phase, stateful cases stay inside the selection. Sampled filter sets are also executed by a real pytest subprocess through schema.parametrize() and schemathesis.pytest.from_fixture() (filters on the lazy schema, inside the fixture, or split): the test body must run for exactly the selected operations.",
+    "note": "The document family is fixed; engine and pytest observations are sampled.",
 }
